@@ -3,11 +3,13 @@
 Every case builds a real field, writes it with Field.to_file into a fresh temporary directory
 (never inside /verif or /repo), inspects the written file through h5py directly AND through
 Field.from_file, and hands (a) the field's typed state, (b) the h5py view of the file to the
-Lean model (`save`, `load`, `loaded` ops).  All numbers are dyadic: every comparison is exact.
+Lean model (`save`, `load`, `spec`, `inv`, `series` ops).  Geometry is dyadic and values travel as
+binary64 bit patterns (exact rationals, tokens for -0 / inf / NaN payloads): every comparison is exact.
 """
 import json
 import os
 import random
+import struct
 import tempfile
 import warnings
 from fractions import Fraction
@@ -24,37 +26,56 @@ PID = "C10"
 RULE = ("(a) round trip: fields on 1-4-d meshes, all four int/float combinations of region and subregion corners (0-3 "
         "possibly overlapping subregions; every ndim x region kind x subregion kind x data kind enumerated once, then random), "
         "dyadic geometry with subregions / arbitrary binary64 corners without, renamed dims/units, bc strings, int/float "
-        "tolerance factor, nvdim 1-4, labels default/custom/absent, unit present/absent/empty, float64/complex128/int64 "
-        "(+ float32/complex64/int32) data with full-mantissa values, NaN payloads, inf, -0.0, masks; written with "
-        "Field.to_file(.h5/.hdf5) into a fresh temp dir; the file is read through h5py alone (object names, dtypes, shapes, "
-        "values) and compared with the model's store (op save); Field.from_file's result is compared attribute by attribute, "
-        "dtype kinds included, with the model's reader run on the h5py view (op load); the driver decides h5Load(view) = "
-        "loaded(f) and h5Load(h5Save f) = h5Load(view) (op spec) and evaluates the theorems' hypothesis Inv on the state of "
-        "the field written and of the field read (op inv); a second write/read must be a fixed point; (b) 36 kinds of tampered "
-        "files (type, version, unordered/equal corners, wrong n/nvdim/labels/shapes, broadcastable arrays, stray/off-grid/"
-        "duplicate subregions, upper-case bc, dtype changes): accept/reject and resulting state vs model; (c) legacy-layout files "
-        "fabricated with h5py (int/float corners in either order, optional valid/invalid side-car json) vs the model of the "
-        "legacy reader, and vs Region/Mesh/Field built from the stored items with the real constructors; (d) suffix dispatch "
-        "of to_file/from_file for 14 suffixes.  Oracle on the real code alone: from_file(to_file(f)) == f and every item the "
-        "property lists is identical (corners, names, units, tolerance, n, bc, subregion names/order/corners/meta, labels, "
-        "unit incl. None, values bit-identical - int data numerically, real stays real, complex stays complex - validity, "
-        "to_file leaves the field untouched, the datasets hold the numbers bit for bit); legacy files load to the documented "
-        "field.  non-trivial = round trip of a field with >= 2 cells whose cell values are not all equal, or a tampered/legacy file")
+        "tolerance factor, nvdim 1-4, labels default/custom/absent (absent also on vector fields: vdims=[]), unit "
+        "present/absent/empty, float64/complex128/int64 (+ float32/complex64/int32) data with full-mantissa values, NaN "
+        "payloads with either sign, inf, -0.0 - under valid AND invalid cells -, int64 beyond 2^53 (ties, 54+ significant bits, "
+        "extremes), masks; written with Field.to_file(.h5/.hdf5) into a fresh temp dir; the file is read through h5py alone "
+        "(object names, dtypes, shapes, values) and compared with the store of the model's code-shaped writer toHdf5 (op save); "
+        "Field.from_file's result is compared attribute by attribute, dtype kinds included, values as binary64 bit patterns "
+        "(tokens for -0/inf/NaN payloads), with the model's reader run on the h5py view (op load); the driver decides "
+        "h5Load(view) = reread(f) (whenever Inv holds) and = loaded(f) (under the hypotheses of h5_roundtrip_loaded), "
+        "h5Load(h5Save f) = h5Load(view), toHdf5 f = h5Save f (op spec) and evaluates the theorems' hypotheses Inv / unit / "
+        "labels / IntSafe on the state of the field written and of the field read (op inv); a second write/read must be a "
+        "fixed point; (b) 36 kinds of tampered files (type, version, unordered/equal corners, wrong n/nvdim/labels/shapes, "
+        "broadcastable arrays, stray/off-grid/duplicate subregions, upper-case bc, dtype changes): accept/reject and resulting "
+        "state vs model; (c) legacy-layout files fabricated with h5py (int/float corners in any order per axis, NaN/inf data, "
+        "optional valid/invalid side-car json with int/float corner lists mixed) vs the model of the legacy reader, and vs "
+        "Region/Mesh/Field built from the stored items with the real constructors; (d) time series: _h5_save_structure with "
+        "data_shape (T, *n, nvdim), a history of 0-6 _h5_save_data(dataset, t) calls (t in and out of [-T, T), rewrites, "
+        "other dtypes: int<->float converted, real<->complex refused, wrong shapes), h5py view of the dataset and "
+        "_h5_load_field(group, k) for every k in [-T-1, T] vs the model (op series); (e) suffix dispatch of to_file/from_file "
+        "for 14 suffixes.  Oracle on the real code alone: from_file(to_file(f)) == f and every item the property lists is "
+        "identical (corners, names, units, tolerance, n, bc, subregion names/order/corners/meta, labels, unit incl. None, "
+        "values bit-identical - int data numerically, real stays real, complex stays complex - validity, to_file leaves the "
+        "field untouched, the datasets hold the numbers bit for bit); legacy files load to the documented field; every slot of "
+        "a series reads back the field written there last (or zeros) on the structure saved.  non-trivial = round trip of a "
+        "field with >= 2 cells whose cell values are not all equal, or a tampered/legacy/series file")
 TRUSTED = ["harness/c10.py + driver JSON glue", "h5py/libhdf5 byte encoding (only dtype/cast semantics are modelled)",
            "the h5py view used to observe the written file"]
 ASSUMPTIONS = ["exact regime only: dyadic corners and cells, subregions on cell vertices (clear of the 0.1 % divisibility and "
                "1e-12 alignment thresholds); nothing on the HDF5 code path does arithmetic on values, so equality is demanded",
+               "integer-typed region / subregion corners stay below 2^53 in magnitude (the model converts corner arrays between "
+               "int and float exactly; only the data array's int64 -> float64 conversion is modelled with rounding, rne53)",
                "component labels that collide with Field attributes are not generated (constructor's business)",
                "bc strings use ASCII characters only (Lean's String.toLower is ASCII-only, Python's str.lower is Unicode)",
-               "the hypotheses of the round-trip theorems (Inv, decidable) are evaluated by the driver on the state of every real "
-               "field written and read (op inv); the spec comparison is made where they hold",
+               "the hypotheses of the round-trip theorems (Inv, unit, labels, IntSafe: all decidable) are evaluated by the driver on "
+               "the state of every real field written and read (op inv); the spec comparisons are made where they hold",
                "the component-to-axis mapping is not stored in the file and not in the property's list: a custom mapping comes "
-               "back as the default one (tag observation:custom-vdim_mapping-not-restored), model and code agree on that"]
-UNPROVED = ["h5_roundtrip_partial excludes the unit string 'None' (false of the code: unit_None_is_lost, known finding D32)",
-            "int64 -> float64 conversion on reading is exact in the rational model; beyond 2^53 it is not in binary64 "
-            "(known finding D33): oracle only",
-            "legacy_read_sidecar takes the acceptance of the side-car's subregions by the mesh as hypothesis (C14's subject)"]
-BUDGET = {"quick": 75, "thorough": 700}
+               "back as the default one (tag observation:custom-vdim_mapping-not-restored), model and code agree on that",
+               "series writes: h5py would try to broadcast an array of another shape into a slot; the model accepts equal shapes "
+               "only and the generator's wrong shapes (one component more) cannot be broadcast; float -> int slot writes use finite "
+               "values only (the C cast of NaN/inf to int64 is platform-defined)"]
+UNPROVED = ["h5_roundtrip_partial has three hypotheses that exclude inputs for which the property is FALSE of the code, each with a "
+            "proved negation: unit string 'None' (unit_None_is_lost, D32), integer data with more than 53 significant bits "
+            "(int_values_roundtrip_iff / int_beyond_2p53_is_rounded, D33), absent labels on a vector field (labels_none_are_lost / "
+            "labels_roundtrip_iff, D34); h5_roundtrip_reread describes the result for every field without exception",
+            "legacy_read_sidecar_fits covers side-cars whose boxes fit the mesh EXACTLY (C14.FitsE); acceptance by the setter's "
+            "tolerant tests of boxes that fit only within tolerance is still a hypothesis (legacy_read_sidecar), as in C14",
+            "reader_returns_inv covers the versioned layout; for a legacy file with a side-car whose boxes are accepted only within "
+            "tolerance Inv is not proved (its subregion clause asks for acceptance of the plain re-read box)",
+            "int/float conversion of CORNER arrays is exact in the model (see ASSUMPTIONS); float32/complex64/int32 widths are "
+            "observed by the oracle only (the model has dtype kinds, not widths)"]
+BUDGET = {"quick": 120, "thorough": 900}
 
 DIMNAMES = ["x", "y", "z", "a", "b", "c", "u", "v", "w", "t", "ξ", "len", "x0", "r_1"]
 UNITS = ["m", "nm", "s", "µm", "Å", "", "m/s", "rad"]
@@ -142,11 +163,14 @@ def gen_rt(rng, nmax=5, max_cells=96, force=None):
     if rng.random() < 0.45:
         pool = [x for x in LABELS if not _reserved(x)]
         vd = rng.sample(pool, nvdim)
+    elif nvdim > 1 and not force.get("labelled") and rng.random() < 0.08:
+        vd = []   # labels absent on a vector field (Field(..., vdims=[]) -> vdims None)
     unit = rng.choice(FUNITS)
     dtype = force.get("dtype") or rng.choice(["f8", "f8", "f8", "c16", "c16", "i8", "i8", "f4", "c8", "i4"])
+    bigint = dtype == "i8" and not force.get("nobig") and rng.random() < 0.06   # integers binary64 does not hold (D33)
     special = dtype in ("f8", "c16") and rng.random() < 0.25
     vmap = None
-    if nvdim > 1 and rng.random() < 0.12:
+    if nvdim > 1 and vd != [] and rng.random() < 0.12:
         labels = vd or (["x", "y", "z"][:nvdim] if nvdim <= 3 else [f"v{i}" for i in range(nvdim)])
         vmap = [[l, rng.choice(dd + [None])] for l in labels]
     free = None
@@ -159,7 +183,7 @@ def gen_rt(rng, nmax=5, max_cells=96, force=None):
     return dict(kind="rt", free=free, n=n, cell=[Q(c) for c in cell], pmin=[Q(p) for p in pmin], rkind=rkind,
                 swap=[rng.random() < 0.3 for _ in range(ndim)], dims=dims, units=units, tol=tol, bc=bc, subs=subs,
                 nvdim=nvdim, vdims=vd, unit=unit, dtype=dtype, special=special, density=rng.choice([1.0, 1.0, 0.8, 0.5, 0.0]),
-                vmap=vmap, suffix=rng.choice([".h5", ".hdf5"]), sub=rng.getrandbits(32))
+                vmap=vmap, suffix=rng.choice([".h5", ".hdf5"]), sub=rng.getrandbits(32), **({"bigint": True} if bigint else {}))
 
 
 TAMPERS = ["type", "type_case", "version", "noversion", "swapcorner", "eqcorner", "n_short", "n_zero", "nvdim0", "nvdim_other",
@@ -183,23 +207,46 @@ def cases(rng, tier):
         yield gen_rt(rng)
     for t in TAMPERS:
         for _ in range(6 if quick else 25):
-            base = gen_rt(rng, force=dict(nsub=rng.choice([1, 2, 3])) if t.startswith("sub_") else
-                          (dict(nvdim=rng.choice([2, 3, 4])) if t in ("vdims_none", "vdims_dup", "vdims_short") else None))
+            base = gen_rt(rng, force=dict(nsub=rng.choice([1, 2, 3]), nobig=True) if t.startswith("sub_") else
+                          (dict(nvdim=rng.choice([2, 3, 4]), nobig=True) if t in ("vdims_none", "vdims_dup", "vdims_short")
+                           else dict(nobig=True)))
             base["kind"] = "tamper"
             base["free"] = None
             base["tamper"] = t
             base["special"] = False
             yield base
     for _ in range(80 if quick else 500):
-        base = gen_rt(rng, force=dict(dtype=rng.choice(["f8", "f8", "c16", "i8"])))
+        base = gen_rt(rng, force=dict(dtype=rng.choice(["f8", "f8", "c16", "i8"]), nobig=True))
         base["kind"] = "legacy"
-        base["special"] = False
+        base["special"] = base["dtype"] in ("f8", "c16") and rng.random() < 0.2
         base["sidecar"] = rng.choice(["none", "none", "ok", "ok", "bad"]) if base["subs"] else "none"
+        base["sidecar_mixed"] = rng.random() < 0.4   # side-car corners as JSON ints where they are whole numbers
         base["p2first"] = rng.random() < 0.3
         base["mixswap"] = rng.getrandbits(16) if rng.random() < 0.35 else None   # legacy files keep p1/p2 as the user gave them: any order per axis
         yield base
+    for _ in range(110 if quick else 700):
+        yield gen_series(rng)
     for s in SUFFIXES:
         yield dict(kind="suffix", suffix=s, sub=rng.getrandbits(32))
+
+
+def gen_series(rng):
+    """several fields in one dataset: _h5_save_structure with data_shape (T, *n, nvdim), a history of
+    _h5_save_data(dataset, t), _h5_load_field(group, k) for every k in [-T-1, T]"""
+    base = gen_rt(rng, max_cells=48, force=dict(dtype=rng.choice(["f8", "f8", "c16", "i8"]), nobig=True, labelled=True))
+    base["kind"] = "series"
+    if base["unit"] == "None":
+        base["unit"] = None
+    T = rng.randint(1, 4)
+    other = {"f8": ["i8", "i8", "c16"], "i8": ["f8", "f8", "c16"], "c16": ["f8", "i8"]}[base["dtype"]]
+    writes = []
+    for _ in range(rng.choice([0, 1, 2, 3, 3, 4, 6])):
+        dt = base["dtype"] if rng.random() < 0.75 else rng.choice(other)
+        writes.append(dict(t=(rng.randint(-T, T - 1) if rng.random() < 0.85 else rng.choice([-T - 1, T, T + 3])), dtype=dt, bad_shape=rng.random() < 0.06, seed=rng.getrandbits(32),
+                           special=dt == base["dtype"] and dt in ("f8", "c16") and rng.random() < 0.3))
+    base["T"] = T
+    base["writes"] = writes
+    return base
 
 
 # ------------------------------------------------------------------------------ building real objects
@@ -244,16 +291,18 @@ def build_mesh(c):
     return df.Mesh(region=region, n=tuple(c["n"]), bc=c["bc"], subregions=subs or None)
 
 
-def gen_array(c, mesh):
-    rng = random.Random(c["sub"])
-    shape = (*[int(k) for k in mesh.n], c["nvdim"])
+def make_array(rng, shape, dtype_name, special=False, bigint=False):
     size = int(np.prod(shape))
-    dt = DTYPES[c["dtype"]]
+    dt = DTYPES[dtype_name]
     kind = np.dtype(dt).kind
     if kind == "i":
-        big = rng.random() < 0.2 and c["dtype"] == "i8"
-        pool = [2 ** 53, -2 ** 53] + ([2 ** 53 + 1, -2 ** 62 - 1] if c.get("bigint") else [])
-        vals = [rng.choice([rng.randint(-9, 9), rng.randint(-2 ** 40, 2 ** 40)] + pool) if (big or c.get("bigint")) else rng.randint(-9, 9)
+        big = rng.random() < 0.2 and dtype_name == "i8"
+        pool = [2 ** 53, -2 ** 53]
+        if bigint:   # beyond 2^53: odd neighbours, ties both ways, many significant bits, the int64 extremes
+            pool += [2 ** 53 + 1, -2 ** 62 - 1, 2 ** 53 + 3, -(2 ** 53 + 2), (2 ** 53 + 1) << rng.randint(0, 9),
+                     rng.randint(-2 ** 63, 2 ** 63 - 1), rng.randint(2 ** 53, 2 ** 56), 2 ** 63 - 1, -2 ** 63,
+                     (rng.getrandbits(53) | 2 ** 52) << rng.randint(1, 10), ((rng.getrandbits(53) | 2 ** 52) << 2) + 2]
+        vals = [rng.choice([rng.randint(-9, 9), rng.randint(-2 ** 40, 2 ** 40)] + pool) if (big or bigint) else rng.randint(-9, 9)
                 for _ in range(size)]
         a = np.array(vals, dtype=dt).reshape(shape)
     elif kind == "f":
@@ -265,7 +314,7 @@ def gen_array(c, mesh):
         def val():
             return rng.randint(-32, 32) / 2 ** rng.randint(0, 3) if rng.random() < 0.6 else rng.uniform(-1, 1) * 10.0 ** rng.randint(-9, 6)
         a = np.array([complex(val(), val()) for _ in range(size)], dtype=dt).reshape(shape)
-    if c.get("special"):
+    if special:
         flat = a.reshape(-1)
         for _ in range(max(1, size // 6)):
             i = rng.randrange(size)
@@ -273,11 +322,29 @@ def gen_array(c, mesh):
             if kind == "f":
                 flat[i] = {"nan": np.nan, "inf": np.inf, "-inf": -np.inf, "-0": -0.0}.get(s, 0.0)
                 if s == "nanp":
-                    flat.view(np.uint64)[i] = 0x7FF8000000000000 | rng.getrandbits(40) | 1
+                    flat.view(np.uint64)[i] = 0x7FF8000000000000 | rng.getrandbits(40) | 1 | (rng.getrandbits(1) << 63)
             else:
                 flat[i] = {"nan": complex(np.nan, 1.0), "inf": complex(np.inf, -np.inf), "-inf": complex(0.5, -np.inf),
                            "-0": complex(-0.0, -0.0), "nanp": complex(2.0, np.nan)}[s]
+    return a
+
+
+def gen_array(c, mesh):
+    rng = random.Random(c["sub"])
+    shape = (*[int(k) for k in mesh.n], c["nvdim"])
+    a = make_array(rng, shape, c["dtype"], special=c.get("special"), bigint=c.get("bigint"))
+    size = int(np.prod(shape))
     mask = np.array([rng.random() < c["density"] for _ in range(size // c["nvdim"])], dtype=bool).reshape(shape[:-1])
+    if c.get("special") and mask.all() and mask.size > 1:
+        mask.reshape(-1)[rng.randrange(mask.size)] = False
+    if c.get("special") and not mask.all():
+        # non-number bit patterns under INVALID cells too: the writer must not look at the mask
+        flat, cells = a.reshape(-1, c["nvdim"]), np.flatnonzero(~mask.reshape(-1))
+        i = int(cells[rng.randrange(len(cells))])
+        if a.dtype.kind == "f":
+            flat[i, 0] = rng.choice([np.nan, np.inf, -np.inf, -0.0])
+        elif a.dtype.kind == "c":
+            flat[i, 0] = rng.choice([complex(np.nan, -0.0), complex(-np.inf, np.nan), complex(-0.0, 3.5)])
     return a, mask
 
 
@@ -285,7 +352,7 @@ def build_field(c):
     mesh = build_mesh(c)
     a, mask = gen_array(c, mesh)
     kw = {}
-    if c["vdims"]:
+    if c["vdims"] is not None:
         kw["vdims"] = list(c["vdims"])
     if c["unit"] is not None:
         kw["unit"] = c["unit"]
@@ -332,20 +399,34 @@ def mesh_json(m):
                 subs=[dict(name=k if type(k) is str else repr(k), region=region_json(s)) for k, s in m.subregions.items()])
 
 
+def fv_token(x):
+    """a binary64 value as the model's FV: the exact rational, or -0 / inf / -inf / nan:<sign>:<payload>"""
+    x = float(x)
+    if x != x or x in (float("inf"), float("-inf")) or x == 0.0:
+        b = struct.unpack("<Q", struct.pack("<d", x))[0]
+        sign, rest = b >> 63, b & ((1 << 63) - 1)
+        if rest == 0:
+            return "-0" if sign else "0"
+        if rest == 0x7FF0000000000000:
+            return "-inf" if sign else "inf"
+        return f"nan:{sign}:{b & ((1 << 52) - 1)}"
+    return Q(x)
+
+
 def darr_json(a):
-    """typed array -> model JSON; values as ONE space-separated string of canonical rationals (complex: re im re im ...);
-    non-finite entries are replaced by 0 (their bit patterns are checked by the oracle)"""
+    """typed array -> model JSON; values as ONE space-separated string (complex: re im re im ...) of canonical rationals
+    or the tokens -0, inf, -inf, nan:<sign>:<payload>: equality of strings is bit-identity of binary64 values"""
     a = np.asarray(a)
     kind = a.dtype.kind
     flat = a.reshape(-1)
     if kind == "c":
         v = []
-        for z in flat.tolist():
-            v.append(Q(float(z.real)) if np.isfinite(z.real) else "0")
-            v.append(Q(float(z.imag)) if np.isfinite(z.imag) else "0")
+        for z in flat.astype(np.complex128).tolist():
+            v.append(fv_token(z.real))
+            v.append(fv_token(z.imag))
         k = "c"
     elif kind == "f":
-        v = [Q(float(x)) if np.isfinite(x) else "0" for x in flat.tolist()]
+        v = [fv_token(x) for x in flat.astype(np.float64).tolist()]
         k = "f"
     elif kind in "iub":
         v = [Q(int(x)) for x in flat.tolist()]
@@ -355,9 +436,13 @@ def darr_json(a):
     return dict(k=k, shape=[int(s) for s in a.shape], v=" ".join(v))
 
 
+def _fv(x):
+    return x if (x[:1] == "n" or x in ("-0", "inf", "-inf")) else F(x)
+
+
 def darr_pairs(j):
-    """model/impl array JSON -> list of (re, im) Fractions"""
-    xs = [F(x) for x in j["v"].split(" ")] if j["v"] else []
+    """model/impl array JSON -> list of (re, im): Fractions, or the token strings for the bit patterns that are not numbers"""
+    xs = [_fv(x) for x in j["v"].split(" ")] if j["v"] else []
     if j["k"] == "c":
         return list(zip(xs[0::2], xs[1::2]))
     return [(x, Fraction(0)) for x in xs]
@@ -692,6 +777,8 @@ def write_legacy(path, c, f):
         side = []
         for k, s in f.mesh.subregions.items():
             pm, px = s.pmin.tolist(), s.pmax.tolist()
+            if c.get("sidecar_mixed") and all(float(x).is_integer() for x in pm):
+                pm = [int(x) for x in pm]   # JSON ints for one corner, floats for the other: the reader joins the dtypes
             if c["sidecar"] == "bad" and k == list(f.mesh.subregions)[-1]:
                 px[0] = (r.pmax + r.edges)[0].item()
             side.append((k, dict(pmin=pm, pmax=px, dims=list(s.dims), units=list(s.units), tolerance_factor=s.tolerance_factor)))
@@ -789,7 +876,8 @@ def run_impl(case):
         obs["state"] = state_json(f)
         obs["tags"] += [f"ndim:{f.mesh.region.ndim}", f"nvdim:{f.nvdim}", f"dtype:{case['dtype']}",
                         f"corners:{_nk(f.mesh.region.pmin)}/" + ("".join(sorted({_nk(s.pmin) for s in f.mesh.subregions.values()})) or "-"),
-                        f"nsub:{len(f.mesh.subregions)}", "labels:" + ("custom" if case["vdims"] else "default" if f.vdims else "none"),
+                        f"nsub:{len(f.mesh.subregions)}", "labels:" + ("custom" if case["vdims"] else "none-vector" if (f.vdims is None and f.nvdim > 1) else
+                                                                          "default" if f.vdims else "none"),
                         "unit:" + ("none" if f.unit is None else "empty" if f.unit == "" else "str"),
                         "bc:" + ("-" if not f.mesh.bc else "named" if f.mesh.bc in ("neumann", "dirichlet") else "periodic"),
                         "tol:" + case["tol"][0], "dims:" + ("renamed" if case["dims"] else "default"),
@@ -828,6 +916,10 @@ def run_impl(case):
             elif doc[0] == "ok" and state_json(doc[1]) != obs["loaded"]:
                 fail("legacy file: field read differs from Field(Mesh(Region(p1, p2), n, side-car subregions), nvdim=dim, value=array)")
             obs["nontrivial"] = True
+            return obs
+
+        if case["kind"] == "series":
+            run_series(case, f, tmp, obs, fail)
             return obs
 
         path = os.path.join(tmp, "field" + case["suffix"])
@@ -884,12 +976,70 @@ def run_impl(case):
     return obs
 
 
+def run_series(case, f0, tmp, obs, fail):
+    """the time-series helpers of io/hdf5.py on the real code: structure once, data slot by slot, one field per slot back"""
+    T, nv = case["T"], int(f0.nvdim)
+    n = [int(k) for k in f0.mesh.n]
+    path = os.path.join(tmp, "series" + case["suffix"])
+    flags, sent, last = [], [], {}
+    with h5py.File(path, "w") as h:
+        g = h.create_group("field")
+        ds = f0._h5_save_structure(g, (T, *n, nv))
+        if tuple(ds.shape) != (T, *n, nv) or ds.dtype != f0.array.dtype:
+            fail(f"_h5_save_structure created dataset {ds.dtype}{tuple(ds.shape)} for data_shape {(T, *n, nv)} and array dtype {f0.array.dtype}")
+        for w in case["writes"]:
+            wr = random.Random(w["seed"])
+            wnv = nv + 1 if w["bad_shape"] else nv
+            a = make_array(wr, (*n, wnv), w["dtype"], special=w.get("special"))
+            fw = df.Field(f0.mesh, nvdim=wnv, value=a, dtype=DTYPES[w["dtype"]])
+            sent.append(dict(t=w["t"], data=darr_json(fw.array)))
+            res = _try(lambda: fw._h5_save_data(ds, w["t"]))
+            flags.append(res[0] == "ok")
+            wellformed = -T <= w["t"] < T and not w["bad_shape"] and w["dtype"] == case["dtype"]
+            if wellformed and res[0] != "ok":
+                fail(f"_h5_save_data rejected a field of the dataset's dtype and shape at index {w['t']} of {T}: {res[1]}")
+            if res[0] == "ok":
+                last[w["t"] % T] = fw.array.copy() if w["dtype"] == case["dtype"] else None
+    obs["series_writes"] = sent
+    obs["series_flags"] = flags
+    obs["tags"] += [f"series-T:{T}", f"series-writes:{len(sent)}"] + [f"series-write:{'ok' if x else 'err'}" for x in flags]
+    reads = list(range(-T - 1, T + 1))
+    obs["series_reads"] = reads
+    loads = []
+    with h5py.File(path, "r") as h:
+        obs["series_array"] = darr_json(h["field/array"][()])
+        for k in reads:
+            res = _try(lambda: df.Field._h5_load_field(h["field"], k))
+            if res[0] != "ok":
+                loads.append(None)
+                if 0 <= k < T:
+                    fail(f"_h5_load_field rejected slot {k} of {T}: {res[1]}")
+                continue
+            g_ = res[1]
+            loads.append(state_json(g_))
+            slot = k % T
+            if slot in last and last[slot] is None:
+                continue   # last write converted between int and float: the numbers are compared with the model only
+            want = last.get(slot, np.zeros((*n, nv), dtype=f0.array.dtype))
+            fe = df.Field(f0.mesh, nvdim=nv, value=want, dtype=want.dtype, vdims=f0.vdims if f0.vdims is not None else [],
+                          unit=f0.unit, valid=f0.valid, vdim_mapping=f0.vdim_mapping)
+            oracle_roundtrip(fe, g_, lambda t, k=k: fail(f"series slot {k}: {t}"))
+    obs["series_loads"] = loads
+    obs["nontrivial"] = True
+
+
 # ------------------------------------------------------------------------------ model side
 def model_requests(case, obs):
     if case["kind"] == "suffix":
         return [dict(op="fmt", suffix=case["suffix"])]
     if case["kind"] == "legacy":
-        return [dict(op="load", file=dict(version=None, legacy=obs["legacy"]))]
+        return [dict(op="load", file=dict(version=None, legacy=obs["legacy"]))] + (
+            [dict(op="inv", field=obs["loaded"])] if "loaded" in obs else [])
+    if case["kind"] == "series":
+        if "series_writes" not in obs:
+            return []
+        return [dict(op="series", field=obs["state"], T=case["T"], writes=obs["series_writes"], reads=obs["series_reads"]),
+                dict(op="inv", field=obs["state"])]
     if "state" not in obs:
         return []
     if case["kind"] == "rt":
@@ -904,7 +1054,7 @@ def model_requests(case, obs):
         return []
     if obs["file"].get("version") is None:
         return []  # a new-layout file without the version attribute: the legacy reader finds no legacy datasets
-    return [dict(op="load", file=obs["file"])]
+    return [dict(op="load", file=obs["file"])] + ([dict(op="inv", field=obs["loaded"])] if "loaded" in obs else [])
 
 
 def _cmp_numarr(name, a, b, dis):
@@ -1024,6 +1174,22 @@ def compare(case, obs, rs):
             dis.append(f"legacy reader: impl {obs['res']} vs model {'ok' if 'ok' in r else r}")
         elif "ok" in r:
             cmp_state("legacy", obs["loaded"], r["ok"], dis)
+        if len(rs) > 1 and not rs[1]["ok"]:   # legacy_field_inv / legacy_sidecar_field_inv
+            dis.append("the field from_file returned for a legacy file violates the constructors' invariant Inv")
+        return dis
+    if case["kind"] == "series":
+        r, inv = rs
+        if not inv["ok"]:
+            dis.append("theorem hypothesis Inv does not hold for the state of the field whose structure is saved")
+        if r["writes"] != obs["series_flags"]:
+            dis.append(f"series: _h5_save_data accepted/rejected {obs['series_flags']} vs model {r['writes']} "
+                       f"(indices {[w['t'] for w in obs['series_writes']]} of {case['T']})")
+        _cmp_darr("series dataset", obs["series_array"], r["array"], dis)
+        for k, a, b in zip(obs["series_reads"], obs["series_loads"], r["loads"]):
+            if (a is not None) != ("ok" in b):
+                dis.append(f"series: _h5_load_field at {k}: impl {'ok' if a is not None else 'err'} vs model {'ok' if 'ok' in b else b}")
+            elif a is not None:
+                cmp_state(f"series slot {k}", a, b["ok"], dis)
         return dis
     if case["kind"] == "rt" and "view_error" in obs:
         return [f"written file does not have the documented layout (h5py view failed: {obs['view_error']})"]
@@ -1035,8 +1201,10 @@ def compare(case, obs, rs):
                        f"(region {inv['region']}, mesh {inv['mesh']})")
         if len(rs) > 4 and not rs[4]["ok"]:
             dis.append("theorem hypothesis Inv does not hold for the state of the field returned by from_file")
-        if inv["ok"] and inv["unit_ok"] and inv["exact"] and "loaded" in obs and obs["loaded"] != obs["state"]:
+        if inv["ok"] and inv["unit_ok"] and inv["vdims_ok"] and inv["exact"] and "loaded" in obs and obs["loaded"] != obs["state"]:
             dis.append("hypotheses of h5_roundtrip (exact) hold but the field read back differs from the field written")
+        if "ok" not in saved:
+            return dis + [f"model writer toHdf5 fails on the state of a real field: {saved}"]
         cmp_file(obs["file_written"], saved["ok"], dis)
         exp = EXPECTED_LAYOUT + (SUBS_LAYOUT if obs["state"]["mesh"]["subs"] else [])
         if sorted(obs["layout"]) != sorted(exp):
@@ -1055,8 +1223,15 @@ def compare(case, obs, rs):
             dis.append(f"from_file: impl {obs['res']} vs model {'ok' if 'ok' in ld else ld}")
         elif "ok" in ld:
             cmp_state("from_file", obs["loaded"], ld["ok"], dis)
-            if inv["ok"] and inv["unit_ok"] and not spec["load_eq_loaded"]:   # hypotheses of h5_roundtrip_loaded
+            if inv["ok"] and inv["unit_ok"] and inv["vdims_ok"] and not spec["load_eq_loaded"]:   # hypotheses of h5_roundtrip_loaded
                 dis.append("model reader on the h5py view differs from the spec loaded(f) although the theorem's hypotheses hold")
+            if inv["ok"] and not spec["load_eq_reread"]:   # hypothesis of h5_roundtrip_reread
+                dis.append("model reader on the h5py view differs from reread(f) although Inv holds")
+            if inv["ok"] and inv["unit_ok"] and inv["vdims_ok"] and inv["int_safe"] and "loaded" in obs and (
+                    darr_pairs(obs["loaded"]["data"]) != darr_pairs(obs["state"]["data"])):   # h5_roundtrip_partial, values
+                dis.append("hypotheses of h5_roundtrip_partial hold but a value read back differs from the value written")
+        if inv["ok"] and not spec["writer_eq"]:   # toHdf5_eq_h5Save
+            dis.append("model: the code-shaped writer toHdf5 differs from the store h5Save although Inv holds")
         if not spec["rt_eq_load"]:
             dis.append("model: h5Load (h5Save f) differs from h5Load of the h5py view")
         if not dis and not spec["store_eq"]:
@@ -1067,6 +1242,8 @@ def compare(case, obs, rs):
         dis.append(f"tampered file ({case['tamper']}): impl {obs['res']} ({obs.get('err')}) vs model {'ok' if 'ok' in r else r}")
     elif "ok" in r:
         cmp_state(f"tampered({case['tamper']})", obs["loaded"], r["ok"], dis)
+    if len(rs) > 1 and not rs[1]["ok"]:   # reader_returns_inv
+        dis.append(f"the field from_file returned for a tampered file ({case['tamper']}) violates the constructors' invariant Inv")
     return dis
 
 
@@ -1077,6 +1254,8 @@ def nontrivial(case, obs):
 def known(case, text):
     if case["kind"] == "rt" and case.get("unit") == "None" and text.startswith("unit changed: 'None' -> None"):
         return "D32"
+    if case["kind"] == "rt" and case.get("vdims") == [] and case.get("nvdim", 1) > 1 and text.startswith("component labels changed: None -> ["):
+        return "D34"
     if case["kind"] == "rt" and case.get("dtype") in ("i8",) and case.get("bigint") and (
             text.startswith("integer values changed") or ".array: values differ" in text):
         return "D33"   # binary64 cannot hold the integer; the rational model can
